@@ -129,3 +129,102 @@ Proof.
     + intros (c & H). exists c. split; [exact H|]. intros x Hx. exact (cycle_in_nodes T g c Hc H x Hx).
   - intros x p _ Hp. exact (deps_closed T g Hc x p Hp).
 Qed.
+
+(* ---------------------------------------------------------------- cycles and self-supporting sets *)
+(* on a closed graph a non-empty self-supporting set of nodes yields a cycle (the converse is
+   [cycle_supported]) *)
+Lemma supported_cycle (preds : N -> list N) (nodes R : list N) :
+  (forall x p, In x nodes -> In p (preds x) -> In p nodes) ->
+  R <> [] -> incl R nodes -> supported preds R ->
+  exists c, is_cycle preds c /\ incl c nodes.
+Proof.
+  intros Cl Hne HR HS. destruct R as [|r R']; [congruence|].
+  destruct (topo_sort nodes preds) as [o|c|] eqn:TS.
+  - exfalso. unfold topo_sort in TS.
+    destruct (topo_sort_ok _ _ _ _ TS) as (_ & Hin & T & _).
+    assert (Hr : In r o) by (apply Hin; apply HR; left; reflexivity).
+    apply in_split in Hr. destruct Hr as (l1 & l2 & Ho).
+    apply (tsorted_no_supported preds o (r :: R') T HS (length l1) l1 r l2 eq_refl Ho). left. reflexivity.
+  - exists c. unfold topo_sort in TS. destruct (topo_sort_cycle _ _ _ _ TS) as (Hc & HU).
+    split; [exact Hc|]. intros x Hx. apply (HU (fun y => In y nodes)); auto.
+  - exfalso. exact (topo_sort_closed_no_fuel nodes preds Cl TS).
+Qed.
+
+(* ---------------------------------------------------------------- interface lemma (used by C22):
+   subdividing a dependency edge u -> v by a fresh pass-through node w (u -> w -> v) preserves the
+   existence of a cycle, both ways.  [np] / [np'] are the predecessor functions before / after
+   (e.g. [same_tick_deps T g] and [same_tick_deps T g']); the hypotheses say exactly "np' is np with
+   (some or all parallel copies of) the edge u -> v rerouted through the fresh node w":
+     w is not a node and nobody's predecessor before;  np' w = [u];  nodes other than v, w keep
+     their predecessors;  v gains w, keeps every predecessor other than u, and gets nothing else. *)
+Theorem subdivide_edge_cycle_iff (np np' : N -> list N) (nodes : list N) (u v w : N) :
+  (forall x p, In x nodes -> In p (np x) -> In p nodes) ->
+  In u nodes -> In v nodes -> ~ In w nodes -> (forall x, ~ In w (np x)) -> np w = [] ->
+  In u (np v) ->
+  np' w = [u] ->
+  (forall x, x <> v -> x <> w -> np' x = np x) ->
+  In w (np' v) ->
+  (forall p, In p (np v) -> p <> u -> In p (np' v)) ->
+  (forall p, In p (np' v) -> p = w \/ In p (np v)) ->
+  ((exists c, is_cycle np c /\ incl c nodes) <-> (exists c, is_cycle np' c /\ incl c (w :: nodes))).
+Proof.
+  intros Cl Ku Kv Kw Wf Wn Huv W1 Wo Wv Wk Wb.
+  assert (Hwv : w <> v) by (intro E; subst; contradiction).
+  assert (Hwu : w <> u) by (intro E; subst; contradiction).
+  assert (Cl' : forall x p, In x (w :: nodes) -> In p (np' x) -> In p (w :: nodes)).
+  { intros x p [<-|Hx] Hp.
+    - rewrite W1 in Hp. destruct Hp as [<-|[]]. right. exact Ku.
+    - destruct (N.eq_dec x v) as [->|Nv].
+      + destruct (Wb p Hp) as [->|Hp']; [left; reflexivity|right; eapply Cl; eauto].
+      + assert (Nw : x <> w) by (intro E; subst; contradiction).
+        rewrite (Wo x Nv Nw) in Hp. right. eapply Cl; eauto. }
+  split.
+  - intros (c & Hc & Hi).
+    pose proof (cycle_supported np c Hc) as HS.
+    assert (Hne : c <> []) by (destruct Hc; assumption).
+    destruct (in_dec N.eq_dec v c) as [Hv|Hv]; [destruct (in_dec N.eq_dec u c) as [Hu|Hu]|].
+    + (* both ends on the set: add w *)
+      apply (supported_cycle np' (w :: nodes) (w :: c) Cl'); [discriminate| |].
+      * intros x [<-|Hx]; [left; reflexivity|right; apply Hi; exact Hx].
+      * intros x [<-|Hx].
+        -- exists u. rewrite W1. split; [left; reflexivity|right; exact Hu].
+        -- destruct (HS x Hx) as (p & Hp & Hpc).
+           destruct (N.eq_dec x v) as [->|Nv].
+           ++ destruct (N.eq_dec p u) as [->|Nu]; [exists w; split; [exact Wv|left; reflexivity]|].
+              exists p. split; [apply Wk; assumption|right; exact Hpc].
+           ++ assert (Nw : x <> w) by (intro E; subst; apply Kw; apply Hi; exact Hx).
+              exists p. rewrite (Wo x Nv Nw). split; [exact Hp|right; exact Hpc].
+    + (* v on the set but not u: the supporting predecessor of v is not u *)
+      apply (supported_cycle np' (w :: nodes) c Cl' Hne); [intros x Hx; right; apply Hi; exact Hx|].
+      intros x Hx. destruct (HS x Hx) as (p & Hp & Hpc).
+      destruct (N.eq_dec x v) as [->|Nv].
+      * exists p. split; [apply Wk; [exact Hp|intro E; subst; contradiction]|exact Hpc].
+      * assert (Nw : x <> w) by (intro E; subst; apply Kw; apply Hi; exact Hx).
+        exists p. rewrite (Wo x Nv Nw). auto.
+    + apply (supported_cycle np' (w :: nodes) c Cl' Hne); [intros x Hx; right; apply Hi; exact Hx|].
+      intros x Hx. destruct (HS x Hx) as (p & Hp & Hpc).
+      assert (Nv : x <> v) by (intro E; subst; contradiction).
+      assert (Nw : x <> w) by (intro E; subst; apply Kw; apply Hi; exact Hx).
+      exists p. rewrite (Wo x Nv Nw). auto.
+  - intros (c & Hc & Hi).
+    pose proof (cycle_supported np' c Hc) as HS.
+    set (R := filter (fun x => negb (N.eqb x w)) c).
+    assert (HR : forall x, In x R <-> In x c /\ x <> w).
+    { intro x. unfold R. rewrite filter_In, negb_true_iff, N.eqb_neq. tauto. }
+    apply (supported_cycle np nodes R Cl).
+    + (* some element other than w *)
+      destruct Hc as (Hne & _). destruct c as [|a c']; [congruence|].
+      destruct (N.eq_dec a w) as [->|Na].
+      * destruct (HS w (or_introl eq_refl)) as (p & Hp & Hpc). rewrite W1 in Hp. destruct Hp as [<-|[]].
+        intro E. assert (In u R) by (apply HR; split; [exact Hpc|auto]). rewrite E in H. exact H.
+      * intro E. assert (In a R) by (apply HR; split; [left; reflexivity|exact Na]). rewrite E in H. exact H.
+    + intros x Hx. apply HR in Hx. destruct Hx as [Hx Nw]. destruct (Hi x Hx) as [E|H]; [congruence|exact H].
+    + intros x Hx. apply HR in Hx. destruct Hx as [Hx Nw].
+      destruct (HS x Hx) as (p & Hp & Hpc).
+      destruct (N.eq_dec x v) as [->|Nv].
+      * destruct (Wb p Hp) as [->|Hp'].
+        -- destruct (HS w Hpc) as (q & Hq & Hqc). rewrite W1 in Hq. destruct Hq as [<-|[]].
+           exists u. split; [exact Huv|apply HR; auto].
+        -- exists p. split; [exact Hp'|apply HR; split; [exact Hpc|intro E; subst; exact (Wf v Hp')]].
+      * rewrite (Wo x Nv Nw) in Hp. exists p. split; [exact Hp|apply HR; split; [exact Hpc|intro E; subst; exact (Wf x Hp)]].
+Qed.
